@@ -82,6 +82,7 @@ def run(ctx):
     ctx.rule("R18.c", "where a mutator rebuilds names after removing an object, the filter keeps the entries NOT identical to it (pop and remove agree)", floor=2)
     ctx.rule("R18.d", "every store mutation of a mutator lies inside exactly one `with self._trigger(...)` scope; delegated mutator calls pass trigger=False", floor=8)
     ctx.rule("R18.e", "readers use the current stores (get_range reads _objects and names; membership is tested against self.objects; the objects setter assigns names and _objects together)", floor=4)
+    ctx.rule("R18.g", "an iterable argument that feeds both stores is materialised first (extend; slice assignment): an iterator would be exhausted by the first store", floor=2)
     ctx.rule("R18.f", "outside ListProxy and the objects setter, _objects grows only in Selector._ensure_value_is_in_objects, which tests membership against the current objects for every single value", floor=1)
     ctx.not_decided += ["consistency after arbitrary mutation sequences (follows from per-mutator pairing but is not executed)",
                         "list mutators that ListProxy does not override (sort, reverse, __delitem__, +=) -- reported as informational"]
@@ -179,8 +180,19 @@ def run(ctx):
                 for cond in g.ifs:
                     if isinstance(cond, ast.Compare) and len(cond.ops) == 1 and isinstance(cond.ops[0], (ast.Is, ast.IsNot, ast.Eq, ast.NotEq)):
                         found = True
-                        if isinstance(cond.ops[0], (ast.IsNot, ast.NotEq)):
-                            ctx.ok("R18.c", f, dc, "names rebuilt keeping entries with `%s`" % norm(cond))
+                        ref = cond.comparators[0] if isinstance(cond.comparators[0], ast.Name) else cond.left
+                        from_store = False
+                        if isinstance(ref, ast.Name):
+                            defs = [st for st in ast.walk(f.node) if isinstance(st, ast.Assign) and any(isinstance(t, ast.Name) and t.id == ref.id for t in st.targets)]
+                            from_store = bool(defs) and all(any(isinstance(c, ast.Call) and isinstance(c.func, ast.Attribute) and c.func.attr in ("pop", "__getitem__")
+                                                                or isinstance(c, ast.Subscript) for c in ast.walk(d.value)) for d in defs)
+                        if isinstance(cond.ops[0], (ast.IsNot, ast.NotEq)) and not from_store and isinstance(cond.ops[0], ast.IsNot):
+                            ctx.fail("R18.c", f, dc, "ListProxy.%s prunes names by identity with its ARGUMENT `%s`, not with the element it actually removed from the stores: "
+                                                     "removing with an equal but not identical object leaves a stale name" % (m, norm(ref)),
+                                     key="%s::prune-by-argument-identity" % f.qualname,
+                                     input="Selector(objects={'a': [1], 'b': [2]}).objects.remove([1]) -> names still has 'a'")
+                        elif isinstance(cond.ops[0], (ast.IsNot, ast.NotEq)):
+                            ctx.ok("R18.c", f, dc, "names rebuilt keeping entries with `%s` (reference taken from the stores)" % norm(cond))
                         else:
                             ctx.fail("R18.c", f, dc, "ListProxy.%s rebuilds names with the filter `%s`, which keeps ONLY the removed entry "
                                                      "(the sibling mutator keeps the others)" % (m, norm(cond)),
@@ -231,6 +243,7 @@ def run(ctx):
             ctx.fail("R18.e", setter, setter.node, "the objects setter does not assign both names and _objects on every branch")
 
     _rule_f(ctx)
+    _rule_g(ctx)
     overridden = set(cls.methods)
     for m in ("sort", "reverse", "__delitem__", "__iadd__", "__imul__"):
         if m not in overridden:
@@ -267,7 +280,13 @@ def _rule_f(ctx):
                     if f.qualname in allowed:
                         guard = any(isinstance(i, ast.If) and any(isinstance(o, ast.NotIn) for cmp_ in ast.walk(i.test) if isinstance(cmp_, ast.Compare) for o in cmp_.ops)
                                     and norm(i.test).endswith("self.objects") for i in ast.walk(f.node))
-                        if guard:
+                        names_too = any(isinstance(a, ast.Attribute) and a.attr == "names" for a in ast.walk(f.node))
+                        if guard and not names_too:
+                            ctx.fail("R18.f", f, c, "the auto-append of an unknown value extends _objects but never names it: on a dict-declared Selector the name mapping "
+                                                    "(objects.items()/keys()) no longer describes the objects the list view and get_range() show",
+                                     key="%s::auto-append-unnamed" % f.qualname,
+                                     input="Selector(objects={'a':1,'b':2}, check_on_set=False); p.x = 5 -> list(objects)==[1,2,5], names=={'a':1,'b':2}")
+                        elif guard:
                             ctx.ok("R18.f", f, c, "single auto-append site, guarded by `val not in self.objects` (current objects)")
                         else:
                             ctx.fail("R18.f", f, c, "_ensure_value_is_in_objects appends without testing membership against the current self.objects")
@@ -277,3 +296,35 @@ def _rule_f(ctx):
                                  key="%s::foreign-objects-append" % f.qualname,
                                  input="ListSelector(objects=[1,2], check_on_set=False); p.x = [9, 2, 9] -> objects == [1, 2, 9, 9]")
     ctx.require(n >= 1, "the auto-append of Selector._ensure_value_is_in_objects was not found")
+
+
+def _rule_g(ctx):
+    for m in ("extend", "__setitem__"):
+        f = ctx.repo.method(LP, m)
+        a = f.node.args
+        params = [x.arg for x in a.args][1:]
+        val = params[0] if m == "extend" else params[1]
+        mats = [st for st in ast.walk(f.node) if isinstance(st, ast.Assign) and len(st.targets) == 1 and isinstance(st.targets[0], ast.Name)
+                and st.targets[0].id == val and isinstance(st.value, ast.Call) and norm(st.value.func) in ("list", "tuple") and st.value.args
+                and norm(st.value.args[0]) == val]
+        shared = []
+        for stmts, withs in all_blocks(f.node):
+            proxy, objs, names = block_mutations(stmts)
+            for op, args, st in proxy:
+                if val in args and op in ("extend", "__setitem__"):
+                    shared.append(st)
+        if not shared:
+            continue
+        if m == "extend":
+            ok = bool(mats)
+        else:
+            # only slice assignment iterates the value
+            cfg = ctx.facts.cfg(f)
+            ok = any(any("slice" in norm(e) and t is True for e, t in cfg.conditions(n)) for st in mats for n in cfg.nodes_of(st))
+        if ok:
+            ctx.ok("R18.g", f, mats[0], "`%s` is materialised before it feeds the proxy and _objects" % val)
+        else:
+            ctx.fail("R18.g", f, shared[0], "ListProxy.%s passes the same iterable `%s` to the proxy list and to _objects: an iterator/generator is exhausted by the first, "
+                                            "so _objects receives nothing (or, for a slice, loses the replaced elements)" % (m, val),
+                     key="%s::iterable-consumed-twice" % f.qualname,
+                     input="Selector(objects=[1,2,3]).objects[0:2] = iter([7,8]) -> objects == [3]; objects.extend(x for x in [3,4]) changes nothing")
